@@ -79,10 +79,62 @@ Definition obj_f (o : gobj) (x : list A) (T : A) : res fval :=
   | ObjIdeal => Ok (FScalar ideal_f)
   | ObjGroup f a => do w <- f_apply f x T a; Ok (FArray (w_gamma w))
   end.
+
+(* ---- call histories on ONE object ----
+   The only per-object state a GroupActivityCoefficients object has is the _group_psis buffer
+   (the translator checks __slots__, args and __call__ against the transcribed text and fails
+   closed on any other state).  The caller holds composition arrays by reference; between calls
+   it may rewrite them in place. *)
+Definition set_gpsis (a : gargs) (g : list (list A)) : gargs :=
+  mkArgs (a_inter a) g (a_mask a) (a_qs a) (a_rs a) (a_Qs a) (a_chemgroups a) (a_cQfs a) (a_index a).
+
+Inductive hop :=
+| HCall (r : nat) (alias : bool) (T : A)   (* obj(arrays[r], T); alias = passed as the float64 array itself *)
+| HF (r : nat) (T : A)                     (* obj.f(arrays[r], T, *obj.args) *)
+| HSet (r : nat) (v : list A).             (* caller: arrays[r][:] = v *)
+
+Record hstate := mkH { h_arrays : list (list A); h_args : gargs }.
+
+Definition hstep (f : wfun) (s : hstate) (o : hop) : hstate * option (res (list A)) :=
+  match o with
+  | HSet r v => (mkH (upd (h_arrays s) r v) (h_args s), None)
+  | HCall r alias T =>
+      let x := nth r (h_arrays s) [] in
+      match call f (if alias then XFloat64 x else XOther x) T (h_args s) with
+      | Ok c => (mkH (upd (h_arrays s) r (c_x c)) (set_gpsis (h_args s) (c_gpsis c)), Some (Ok (c_gamma c)))
+      | Err e => (s, Some (Err e))
+      end
+  | HF r T =>
+      let x := nth r (h_arrays s) [] in
+      match f_apply f x T (h_args s) with
+      | Ok w => (mkH (upd (h_arrays s) r (w_x w)) (set_gpsis (h_args s) (w_gpsis w)), Some (Ok (w_gamma w)))
+      | Err e => (s, Some (Err e))
+      end
+  end.
+
+Fixpoint run_hist (f : wfun) (s : hstate) (ops : list hop) : hstate * list (option (res (list A))) :=
+  match ops with
+  | [] => (s, [])
+  | o :: t => let '(s1, out) := hstep f s o in
+              let '(s2, outs) := run_hist f s1 t in (s2, out :: outs)
+  end.
+
+(* what a state-free object answers: a function of the current content of the array and T only *)
+Definition gamma_of (f : wfun) (a : gargs) (x : list A) (T : A) : res (list A) :=
+  match f_apply f x T a with Ok w => Ok (w_gamma w) | Err e => Err e end.
+Fixpoint spec_hist (f : wfun) (a : gargs) (arrays : list (list A)) (ops : list hop)
+  : list (option (res (list A))) :=
+  match ops with
+  | [] => []
+  | HSet r v :: t => None :: spec_hist f a (upd arrays r v) t
+  | HCall r _ T :: t => Some (gamma_of f a (nth r arrays []) T) :: spec_hist f a arrays t
+  | HF r T :: t => Some (gamma_of f a (nth r arrays []) T) :: spec_hist f a arrays t
+  end.
 End Classes.
 Arguments mkArgs {A I}. Arguments mkC {A}. Arguments c_gamma {A}. Arguments c_x {A}. Arguments c_gpsis {A}.
 Arguments XFloat64 {A}. Arguments XOther {A}. Arguments ObjIdeal {A I}. Arguments ObjGroup {A I}.
 Arguments FScalar {A}. Arguments FArray {A}.
+Arguments HCall {A}. Arguments HF {A}. Arguments HSet {A}. Arguments mkH {A I}. Arguments h_arrays {A I}. Arguments h_args {A I}.
 
 (* ================= checkers for the correspondence (carrier option Q) ================= *)
 Fixpoint list_eqb2 {X Y} (eqb : X -> Y -> bool) (a : list X) (b : list Y) : bool :=
@@ -130,6 +182,35 @@ Definition chk_modified (s : list standin) (alias : bool) (x : vec) (T : Q) (int
     (index : list nat) (o : obs) : bool :=
   obs_matches (call (gamma_modified_UNIFAC (KS s)) (mkx alias x) (Some T)
                  (mk_oargs (some_mat3 inter) gpsis mask qs rs Qs chemgroups cQfs index)) o.
+
+(* ---- histories ---- *)
+Inductive hobs := HNone | HVals (g : vec) | HZeroDiv | HUnbound.
+Definition hobs_matches (r : option (res (list (option Q)))) (o : hobs) : bool :=
+  match r, o with
+  | None, HNone => true
+  | Some (Ok g), HVals v => ov_eqb g v
+  | Some (Ok g), HZeroDiv => negb (all_some g)
+  | Some (Err ERuntime), HUnbound => true
+  | _, _ => false
+  end.
+Inductive qop := QCall (r : nat) (alias : bool) (T : Q) | QF (r : nat) (T : Q) | QSet (r : nat) (v : vec).
+Definition lift_op (o : qop) : hop (A:=option Q) :=
+  match o with
+  | QCall r al T => HCall r al (Some T)
+  | QF r T => HF r (Some T)
+  | QSet r v => HSet r (some_vec v)
+  end.
+Definition chk_hist {I} (f : wfun (A:=option Q) (I:=I)) (a : gargs (A:=option Q) (I:=I)) (arrays : list vec)
+    (ops : list qop) (outs : list hobs) (arrays_after : list vec) (gpsis_after : list vec) (any_zerodiv : bool) : bool :=
+  let '(s, r) := run_hist f (mkH (map some_vec arrays) a) (map lift_op ops) in
+  list_eqb2 hobs_matches r outs &&
+  (any_zerodiv || (list_eqb2 ov_eqb (h_arrays s) arrays_after && om_eqb (a_gpsis (h_args s)) gpsis_after)).
+Definition chk_hist_unifac (s : list standin) (inter : list vec) (gpsis : list vec) (mask : list (list bool))
+    (qs rs Qs : vec) (chemgroups cQfs : list vec) (index : list nat) :=
+  chk_hist (gamma_UNIFAC (KS s)) (mk_oargs (some_mat inter) gpsis mask qs rs Qs chemgroups cQfs index).
+Definition chk_hist_modified (s : list standin) (inter : list (list vec)) (gpsis : list vec) (mask : list (list bool))
+    (qs rs Qs : vec) (chemgroups cQfs : list vec) (index : list nat) :=
+  chk_hist (gamma_modified_UNIFAC (KS s)) (mk_oargs (some_mat3 inter) gpsis mask qs rs Qs chemgroups cQfs index).
 
 (* the bare kernels (py_func run directly) *)
 Definition chk_vec (r : list (option Q)) (o : option vec) : bool :=
